@@ -212,7 +212,7 @@ def evaluate(cases, use_driver=True):
     return out
 
 
-def standard_queries(rng, content, n_states=2):
+def standard_queries(rng, content, n_states=2, flags=False):
     qs = [["init"], ["classes"], ["pvals"], ["args", None, "0"], ["rhs", None, "0"], ["fluxes", None, "0"]]
     for _ in range(n_states):
         st = C.gen_state(rng, content)
@@ -224,6 +224,21 @@ def standard_queries(rng, content, n_states=2):
         qs.append(["stoichvar", st, str(rng.choice([0, 1, 2, "1/2"])), rng.choice(touched)])
     times = rng.sample(["0", "1/2", "1", "2", "3"], rng.randint(1, 3))
     qs.append(["tc", [[t, C.gen_state(rng, content)] for t in sorted(times, key=lambda x: eval(x))]])
+    if flags:
+        # get_arg_names / get_args / get_args_time_course with the nine include_* flags (selection and order observable)
+        ro = bool(content.get("readouts"))
+        for _ in range(2):
+            fl = C.gen_flags(rng)
+            if ro and rng.random() < 0.6:
+                fl[8] = True
+            st = rng.choice([None, C.gen_state(rng, content)])
+            qs += [["argnames", fl], ["argsf", st, str(rng.choice([0, 1, 2, "1/2"])), fl]]
+        fl = C.gen_flags(rng)
+        if ro:
+            fl[8] = True
+        qs.append(["argsftc", [[t, C.gen_state(rng, content)] for t in sorted(rng.sample(["0", "1", "2"], 2))], fl])
+        # get_fluxes is get_args with its own flags
+        qs.append(["argsf", None, "0", [False, False, False, False, False, True, False, True, False]])
     return qs
 
 
@@ -237,13 +252,13 @@ def well_posed(case) -> bool:
     vnames = [k for k, _ in c.get("vars", [])]
     touched = set(C.Spec(c).touched_vars())
     for q in case["queries"]:
-        if q[0] in ("args", "fluxes", "rhs", "stoich", "stoichvar") and q[1] is not None and [k for k, _ in q[1]] != vnames:
+        if q[0] in ("args", "argsf", "fluxes", "rhs", "stoich", "stoichvar") and q[1] is not None and [k for k, _ in q[1]] != vnames:
             return False
         if q[0] == "call" and len(q[2]) != len(vnames):
             return False
         if q[0] == "stoichvar" and q[3] not in touched:
             return False
-        if q[0] == "tc" and any([k for k, _ in st] != vnames for _, st in q[1]):
+        if q[0] in ("tc", "argsftc") and any([k for k, _ in st] != vnames for _, st in q[1]):
             return False
         if q[0] == "simupd" and any(k not in vnames for k, _ in q[1]):
             return False
